@@ -31,28 +31,29 @@ CONSTANTS Dense,      \* durations 0..Dense ps are all checked
 N(x) == FromInt(x)
 U128Max == Sub(Pow2(128), One)
 
-Around(x) == << Monus(x, N(2)), Monus(x, One), x, Add(x, One), Add(x, N(2)) >>
-
-RECURSIVE Flatten(_)
-Flatten(ss) == IF ss = <<>> THEN <<>> ELSE Head(ss) \o Flatten(Tail(ss))
+Near(c, j) == CASE j = 1 -> Monus(c, N(2)) [] j = 2 -> Monus(c, One) [] j = 3 -> c
+                 [] j = 4 -> Add(c, One) [] j = 5 -> Add(c, N(2))
 
 Mults_q == <<1, 2, 9, 10, 11, 23, 24, 59, 60, 99, 100, 999, 1000, 1001, 9999, 10000, 99999>>
 Mults_t == Mults_q \o <<3, 5, 12, 25, 61, 101, 365, 1023, 1024, 1234, 5999, 6000, 12345,
                         100000, 123456>>
 
+NU == Len(DurUnitPicos)
+Centers(mults) ==
+  [k \in 1..39 |-> Pow10(k - 1)]
+  \o [i \in 1..(NU * Len(mults)) |->
+        MulSmall(DurUnitPicos[((i - 1) \div Len(mults)) + 1], mults[((i - 1) % Len(mults)) + 1])]
+  \o << Pow2(64), Pow2(127), Sub(U128Max, N(2)) >>
+  \* 9999.5 units and the like: the last digit kept / the first digit dropped
+  \o [i \in 1..NU |-> Div(MulSmall(DurUnitPicos[i], 19999), N(2))]
+  \o [i \in 1..NU |-> Div(MulSmall(DurUnitPicos[i], 12345), N(1000))]
+  \o [i \in 1..NU |-> Div(MulSmall(DurUnitPicos[i], 99995), N(10000))]
+
+\* every centre with its neighbours -2 .. +2, as far as they fit 128 bits
 BoundsOf(mults) ==
-  SelectSeq(
-    Flatten([k \in 1..39 |-> Around(Pow10(k - 1))])
-    \o Flatten([i \in 1..(Len(DurUnitPicos) * Len(mults)) |->
-                  Around(MulSmall(DurUnitPicos[((i - 1) \div Len(mults)) + 1],
-                                  mults[((i - 1) % Len(mults)) + 1]))])
-    \o Around(Pow2(64)) \o Around(Pow2(127)) \o Around(Sub(U128Max, N(2)))
-    \* 9999.5 units and the like: the last digit kept / first digit dropped
-    \o Flatten([i \in 1..Len(DurUnitPicos) |->
-                  Around(Div(MulSmall(DurUnitPicos[i], 19999), N(2)))
-                  \o Around(Div(MulSmall(DurUnitPicos[i], 12345), N(1000)))
-                  \o Around(Div(MulSmall(DurUnitPicos[i], 99995), N(10000)))]),
-    LAMBDA x : Le(x, U128Max))
+  LET cs == Centers(mults)
+  IN SelectSeq([i \in 1..(5 * Len(cs)) |-> Near(cs[((i - 1) \div 5) + 1], ((i - 1) % 5) + 1)],
+               LAMBDA v : Le(v, U128Max))
 
 Bounds_q == BoundsOf(Mults_q)
 Bounds_t == BoundsOf(Mults_t)
@@ -192,14 +193,18 @@ RatTheorems ==
   AtRat => \A i \in 1..Len(Kinds), binary \in BOOLEAN :
              RatTheoremsFor(Kinds[i], binary)
 
-\* Tightness: for integers below 2^40 a text is accepted iff it is the text
-\* of the same formatting (a second numerator comes with the state).
+\* Tightness: the widened interval [lo, hi] is far narrower than the set of
+\* values sharing one text, so for integers below 2^40 exactly the texts of
+\* lo, of the exact value and of hi are accepted (a second numerator comes
+\* with the state and supplies the candidate text).
 AcceptanceIsTight ==
   AtRat /\ Lt(RNum, Pow2(40)) /\ Lt(ROther, Pow2(40)) =>
     \A binary \in BOOLEAN :
       LET other == FormatRat(ROther, One, "bytes", binary)
       IN AcceptsRat(other, RNum, One, "bytes", binary)
-           = (other = FormatRat(RNum, One, "bytes", binary))
+           = (other \in {FormatRat(RNum, One, "bytes", binary),
+                         FormatRat(Mul(RNum, EpsLo), EpsDen, "bytes", binary),
+                         FormatRat(Mul(RNum, EpsHi), EpsDen, "bytes", binary)})
 
 \* Malformed texts are never accepted.
 RejectsMalformed ==
